@@ -34,6 +34,9 @@ func init() {
 			{ID: "C07-R10", Title: "the reset does not read the registers it resets", Floor: 1, Run: resetIndependentOfState},
 			{ID: "C07-R11", Title: "results are cached only after their error was checked", Floor: 3, Run: func(c *core.Ctx) { publishBeforeErrorCheck(c) }},
 			{ID: "C07-R12", Title: "errors are not cached across invocations", Floor: 1, Run: errorsAreNotCached},
+			{ID: "C07-R13", Title: "risor.Call runs the given code before it looks the function up", Floor: 1, Run: callRunsTheCodeFirst},
+			{ID: "C07-R14", Title: "VMs are not recycled through shared containers", Floor: 1, Run: vmNotPooled},
+			{ID: "C07-R15", Title: "cell storage is per activation (shared with C02-R2)", Floor: 4, Run: c02r2},
 			{ID: "C07-R5", Title: "VM-level caches are filled only after the fallible work succeeded", Floor: 1, Run: c07r5},
 		},
 	})
